@@ -5944,6 +5944,14 @@ class CodegenCtx:
             result.add(f"return {self.program_name.upper()}_OK;")
         return result.value()
 
+    def _emitted_transitions_pointing_to(self, state: DFState):
+        """
+        All transitions for which code is emitted that point to the state. Unlike DFA.transitions_pointing_to this also considers
+        transitions of states which are unreachable but still present (e.g. with -O0), since their gotos need labels too.
+        """
+
+        return [t for source in self.dfa.states for t in source.all_transitions() if t.target == state]
+
     def _needs_end_check(self):
         if ProgramData.do(ProgramFlag.ZERO_LEN_INPUT_SUPPORT):
             return True
@@ -5974,11 +5982,11 @@ class CodegenCtx:
                 # Emit the case label
                 contents.add(f"case {idx}:")
                 # Emit goto target for fallthroughs if anything falls here (these are separate to make it slightly easier to read)
-                if any(x.is_fallthrough and self._transition_will_directly_jump(x, excl_fall=True) for x in self.dfa.transitions_pointing_to(state)):
+                if any(x.is_fallthrough and self._transition_will_directly_jump(x, excl_fall=True) for x in self._emitted_transitions_pointing_to(state)):
                     contents.add(f"fall_{idx}:")
                 # If any transition can directly jump into this case, emit a label for it to do so. We don't really _need_ these checks
                 # but gcc complains about unused labels in -Wall.
-                if any(self._transition_will_directly_jump(x) for x in self.dfa.transitions_pointing_to(state) if x.on_values != {DFTransition.End}):
+                if any(self._transition_will_directly_jump(x) for x in self._emitted_transitions_pointing_to(state) if x.on_values != {DFTransition.End}):
                     contents.add(f"jpto_{idx}:")
                 with contents as state_body:
                     # Is this a normal state
@@ -6027,7 +6035,7 @@ class CodegenCtx:
                 # Emit the case label
                 contents.add(f"case {idx}:")
                 # Emit goto target for fallthroughs if anything falls here (these are separate to make it slightly easier to read)
-                if any(x.is_fallthrough for x in self.dfa.transitions_pointing_to(state)):
+                if any(x.is_fallthrough for x in self._emitted_transitions_pointing_to(state)):
                     contents.add(f"fall_{idx}:")
                 with contents as state_body:
                     # Is this a normal state
